@@ -182,7 +182,14 @@ class NetClientWorld:
         (self.blob if on_blob else self.ctl).send(xml.encode("latin1", "xmlcharrefreplace"))
 
     def alive(self):
+        if getattr(self, "blob_closed", False):
+            # the server has hung up the BLOB connection: that receive loop has ended, the control one must go on
+            return sum(1 for t in self.recv_tasks if t.done()) <= 1
         return all(not t.done() for t in self.recv_tasks)
+
+    def close_blob_connection(self):
+        self.blob_closed = True
+        self.blob.close()
 
 
 class SnoopWorld:
